@@ -82,3 +82,35 @@ def from_lattice(K, o, table, h, unit=4):
         c, _ = table[m]
         hq[c - 1] = h[m] / unit
     return o + K * hq
+
+
+def axis_twins(ck, darsia, pid, quick):
+    """Reductions / slices of a 2-D and a 3-D image (the same axis name or matrix index means another array axis in each),
+    along every interleaving of spec/TwoObjects.tla; returns the number of replayed histories."""
+    from lib import twoobj
+    hists = twoobj.histories(ck)
+
+    def make(o):
+        shape = (3, 4) if o == "a" else (2, 3, 4)
+        nd = len(shape)
+        img = darsia.Image(np.arange(float(np.prod(shape))).reshape(shape), space_dim=nd, dimensions=[0.5 * (m + 1) * shape[m] for m in range(nd)],
+                           origin=[1.0 + m for m in range(nd)], scalar=True)
+        return img
+
+    def use(o, img):
+        out = []
+        for ax in ("y", 0, "x", 1):
+            r = darsia.reduce_axis(img, ax, "sum")
+            out += [np.asarray(r.img, dtype=float), np.asarray(r.origin, dtype=float), np.asarray(r.dimensions, dtype=float)]
+        sl = img.slice(1, 0)
+        out += [np.asarray(sl.img, dtype=float), np.asarray(sl.origin, dtype=float)]
+        cut = float(np.asarray(img.coordinatesystem.coordinate([1] * img.space_dim))[1]) - 1e-3 * float(img.voxel_size[0])
+        sn = img.slice(cut, "y")
+        out += [np.asarray(sn.img, dtype=float), np.asarray(sn.origin, dtype=float)]
+        return out
+
+    def same(x, y):
+        return len(x) == len(y) and all(p_.shape == q_.shape and np.allclose(p_, q_, rtol=1e-12, atol=1e-12) for p_, q_ in zip(x, y))
+
+    sel = hists if not quick else [h for h in hists if len(h) <= 4]
+    return twoobj.run(ck, pid, [(sel, "reduction-2d-3d", make, use, same, "twin:axes")])
